@@ -90,19 +90,19 @@ func (la *LockAnalysis) lockKey(v ssa.Value) string {
 		case *ssa.UnOp:
 			if x.Op == token.MUL {
 				if fa, ok := x.X.(*ssa.FieldAddr); ok {
-					return typeShort(fa.X.Type()) + "." + fieldOf(fa).Name()
+					return typeShort(fa.X.Type()) + "." + fieldName(fieldOf(fa))
 				}
 				if g, ok := x.X.(*ssa.Global); ok {
-					return "G:" + g.Name()
+					return "G:" + memberName(g)
 				}
 			}
 			return ""
 		case *ssa.FieldAddr:
-			return typeShort(x.X.Type()) + "." + fieldOf(x).Name()
+			return typeShort(x.X.Type()) + "." + fieldName(fieldOf(x))
 		case *ssa.Global:
-			return "G:" + x.Name()
+			return "G:" + memberName(x)
 		case *ssa.Parameter:
-			return "param:" + x.Name()
+			return "param:" + paramName(x)
 		case *ssa.ChangeType:
 			v = x.X
 		default:
